@@ -1,11 +1,11 @@
 import SqlProofs.CteShape.Skeletons
-import SqlProofs.CteShape.Table.T08  -- build-order only (three lanes: a decided lemma of ten WITH statements needs 5-6 GB)
-/-! CTE skeleton table, entries 110 … 119: kernel evaluation of the real lexer rules, `groupStatement` and `getType` -/
+import SqlProofs.CteShape.Table.T08  -- build-order only (three lanes: a decided lemma of five WITH statements needs about 5 GB)
+/-! CTE skeleton table, entries 55 … 59: kernel evaluation of the real lexer rules, `groupStatement` and `getType` -/
 namespace Sql
 namespace Acc
 
 set_option maxRecDepth 1000000 in
-theorem cte_110 : ((cteSkels.drop 110).take 10).all cteCheck = true := by decide +kernel
+theorem cte_055 : ((cteSkels.drop 55).take 5).all cteCheck = true := by decide +kernel
 
 end Acc
 end Sql
